@@ -407,7 +407,7 @@ Proof.
   split; [|exact Hs]. rewrite Hs, (a_build_strict_accepted m Exact Exact a_new _ Hmm Ha).
   f_equal. apply merge_tree. exact Hl.
 Qed.
-(* two trees over permuted... the same flattening give the same sketch *)
+(* two trees with the same leaves in the same order compute the same sketch, whatever their shape *)
 Corollary merge_tree_shape m t t' :
   wnonneg (flatten t) -> flatten t = flatten t' -> eval m t = eval m t'.
 Proof.
@@ -574,6 +574,446 @@ Proof.
   intros Hf. unfold a_is_empty, a_reweight; cbn [a_pos a_neg a_zero].
   rewrite weqb_mul0 by (apply wpos_neq; exact Hf).
   destruct (a_pos s), (a_neg s); reflexivity.
+Qed.
+
+(* ------------------------------------------------------------------ *)
+(** ** 3. a_items, a_sum                                               *)
+(* ------------------------------------------------------------------ *)
+
+Definition wsum (l : list (Qc * W)) : W := fold_right (fun vw acc => wadd (snd vw) acc) w0 l.
+Lemma wsum_app a b : wsum (a ++ b) = wadd (wsum a) (wsum b).
+Proof.
+  induction a as [|[v w] a IH]; cbn [app wsum fold_right snd].
+  - fold (wsum b). generalize (wsum b). intros x. wlra.
+  - fold (wsum (a ++ b)). fold (wsum a). rewrite IH. generalize (wsum a) (wsum b). intros x y. wlra.
+Qed.
+Lemma wsum_map_total (g : Z -> Qc) b : wsum (map (fun kw => (g (fst kw), snd kw)) b) = total b.
+Proof.
+  induction b as [|[k w] b IH]; [reflexivity|].
+  cbn [map wsum fold_right fst snd]. fold (wsum (map (fun kw => (g (fst kw), snd kw)) b)).
+  rewrite IH, total_cons. reflexivity.
+Qed.
+
+Theorem a_items_total m s : wsum (a_items m s) = a_count s.
+Proof.
+  unfold a_items, a_count. rewrite !wsum_app, (wsum_map_total (am_value m)).
+  rewrite (wsum_map_total (fun k => Qcopp (am_value m k))).
+  destruct (weqb_spec (a_zero s) w0) as [E|E].
+  - rewrite E. cbn [wsum fold_right]. wlra.
+  - cbn [wsum fold_right snd]. wlra.
+Qed.
+Lemma Forall_map_snd (g : Z -> Qc) (P : W -> Prop) b :
+  Forall (fun kw => P (snd kw)) b -> Forall (fun vw => P (snd vw)) (map (fun kw => (g (fst kw), snd kw)) b).
+Proof.
+  induction b as [|[k w] b IH]; intros H; [constructor|].
+  inversion H as [|x y H1 H2]; subst. cbn [map fst snd]. constructor; [exact H1|apply IH; exact H2].
+Qed.
+Theorem a_items_weights_pos m s : awf s -> Forall (fun vw => (w0 < snd vw)%Qc) (a_items m s).
+Proof.
+  intros (Hp & Hn & Pp & Pn & Hz). unfold a_items. apply Forall_app. split; [|apply Forall_app; split].
+  - destruct (weqb_spec (a_zero s) w0) as [E|E]; [constructor|].
+    constructor; [|constructor]. cbn [snd]. apply wnonneg_neq_pos; assumption.
+  - apply (Forall_map_snd (am_value m) (fun w => (w0 < w)%Qc)). exact Pp.
+  - apply (Forall_map_snd (fun k => Qcopp (am_value m k)) (fun w => (w0 < w)%Qc)). exact Pn.
+Qed.
+Lemma not_in_map_zero (g : Z -> Qc) (b : bins) (w : W) :
+  (forall k, g k <> w0) -> ~ In (w0, w) (map (fun kw : Z * W => (g (fst kw), snd kw)) b).
+Proof.
+  intros Hg Hin. apply in_map_iff in Hin. destruct Hin as [[k c] [E _]].
+  cbn [fst snd] in E. injection E as E _. exact (Hg k E).
+Qed.
+Lemma not_in_bins_zero m s w :
+  (forall i, (w0 < am_value m i)%Qc) ->
+  ~ In (w0, w) (map (fun kw => (am_value m (fst kw), snd kw)) (a_pos s)
+                ++ map (fun kw => (Qcopp (am_value m (fst kw)), snd kw)) (a_neg s)).
+Proof.
+  intros Hv Hin. apply in_app_or in Hin. destruct Hin as [Hin|Hin].
+  - revert Hin. apply (not_in_map_zero (am_value m)). intros k E. pose proof (Hv k) as Hk. qlra.
+  - revert Hin. apply (not_in_map_zero (fun k => Qcopp (am_value m k))).
+    intros k E. pose proof (Hv k) as Hk. qlra.
+Qed.
+(* the zero bucket is reported iff it has weight, and then with that weight *)
+Theorem a_items_zero m s :
+  (forall i, (w0 < am_value m i)%Qc) ->
+  ((exists w, In (w0, w) (a_items m s)) <-> a_zero s <> w0).
+Proof.
+  intros Hv. unfold a_items. split.
+  - intros [w Hin]. apply in_app_or in Hin. destruct Hin as [Hin|Hin].
+    + destruct (weqb_spec (a_zero s) w0) as [E|E]; [contradiction|exact E].
+    + exfalso. exact (not_in_bins_zero m s w Hv Hin).
+  - intros Hz. exists (a_zero s). apply in_or_app. left.
+    destruct (weqb_spec (a_zero s) w0) as [E|E]; [contradiction|left; reflexivity].
+Qed.
+Theorem a_items_zero_weight m s w :
+  (forall i, (w0 < am_value m i)%Qc) -> In (w0, w) (a_items m s) -> w = a_zero s.
+Proof.
+  intros Hv Hin. unfold a_items in Hin. apply in_app_or in Hin. destruct Hin as [Hin|Hin].
+  - destruct (weqb_spec (a_zero s) w0) as [E|E]; [contradiction|].
+    destruct Hin as [Hin|[]]. injection Hin as Hin. symmetry. exact Hin.
+  - exfalso. exact (not_in_bins_zero m s w Hv Hin).
+Qed.
+
+(* GetSum is the sum of value * weight over the reported bins, by definition *)
+Theorem a_sum_def m s :
+  a_sum m s = fold_left (fun acc vw => Qcplus acc (Qcmult (fst vw) (snd vw))) (a_items m s) w0.
+Proof. reflexivity. Qed.
+Lemma fold_sum_nonneg (l : list (Qc * W)) acc :
+  (w0 <= acc)%Qc -> Forall (fun vw => (w0 <= fst vw)%Qc /\ (w0 <= snd vw)%Qc) l ->
+  (w0 <= fold_left (fun acc vw => Qcplus acc (Qcmult (fst vw) (snd vw))) l acc)%Qc.
+Proof.
+  revert acc. induction l as [|[v w] l IH]; intros acc Ha Hl; [exact Ha|].
+  inversion Hl as [|x y [H1 H2] Hl']; subst. cbn [fold_left fst snd] in *. apply IH; [|exact Hl'].
+  pose proof (wnonneg_mul v w H1 H2) as Hm. wlra.
+Qed.
+Lemma fold_sum_nonpos (l : list (Qc * W)) acc :
+  (acc <= w0)%Qc -> Forall (fun vw => (fst vw <= w0)%Qc /\ (w0 <= snd vw)%Qc) l ->
+  (fold_left (fun acc vw => Qcplus acc (Qcmult (fst vw) (snd vw))) l acc <= w0)%Qc.
+Proof.
+  revert acc. induction l as [|[v w] l IH]; intros acc Ha Hl; [exact Ha|].
+  inversion Hl as [|x y [H1 H2] Hl']; subst. cbn [fold_left fst snd] in *. apply IH; [|exact Hl'].
+  assert (H1' : (w0 <= Qcopp v)%Qc) by qlra.
+  pose proof (wnonneg_mul (Qcopp v) w H1' H2) as Hm.
+  assert (E : wmul (Qcopp v) w = Qcopp (wmul v w)) by (unfold W, wmul in *; ring).
+  rewrite E in Hm. qlra.
+Qed.
+(* if every reported value has the same sign, so has the sum *)
+Theorem a_sum_nonneg m s :
+  (forall i, (w0 < am_value m i)%Qc) -> awf s -> a_neg s = [] -> (w0 <= a_sum m s)%Qc.
+Proof.
+  intros Hv Hs Hn. unfold a_sum. apply fold_sum_nonneg; [wlra|].
+  pose proof (a_items_weights_pos m s Hs) as Hw. unfold a_items in *. rewrite Hn in *.
+  cbn [map] in *. rewrite app_nil_r in *.
+  apply Forall_app in Hw. destruct Hw as [Hw1 Hw2]. apply Forall_app. split.
+  - destruct (weqb (a_zero s) w0); [constructor|]. inversion Hw1 as [|x y H1 H2]; subst.
+    constructor; [|constructor]. cbn [fst snd] in *. split; wlra.
+  - clear Hw1. induction (a_pos s) as [|[k w] b IH]; [constructor|].
+    cbn [map fst snd] in *. inversion Hw2 as [|x y H1 H2]; subst. constructor; [|apply IH; exact H2].
+    cbn [fst snd] in *. pose proof (Hv k) as Hk. split; wlra.
+Qed.
+Theorem a_sum_nonpos m s :
+  (forall i, (w0 < am_value m i)%Qc) -> awf s -> a_pos s = [] -> (a_sum m s <= w0)%Qc.
+Proof.
+  intros Hv Hs Hn. unfold a_sum. apply fold_sum_nonpos; [wlra|].
+  pose proof (a_items_weights_pos m s Hs) as Hw. unfold a_items in *. rewrite Hn in *.
+  cbn [map app] in *.
+  apply Forall_app in Hw. destruct Hw as [Hw1 Hw2]. apply Forall_app. split.
+  - destruct (weqb (a_zero s) w0); [constructor|]. inversion Hw1 as [|x y H1 H2]; subst.
+    constructor; [|constructor]. cbn [fst snd] in *. split; wlra.
+  - clear Hw1. induction (a_neg s) as [|[k w] b IH]; [constructor|].
+    cbn [map fst snd] in *. inversion Hw2 as [|x y H1 H2]; subst. constructor; [|apply IH; exact H2].
+    cbn [fst snd] in *. pose proof (Hv k) as Hk. split; qlra.
+Qed.
+
+(* ------------------------------------------------------------------ *)
+(** ** 4-5. a_quantile                                                 *)
+(* ------------------------------------------------------------------ *)
+Section QuantileProofs.
+Variable rnd : Qc -> Qc.
+Variable m : amapping.
+Hypothesis rnd_mono : forall x y : Qc, (x <= y)%Qc -> (rnd x <= rnd y)%Qc.
+Hypothesis rnd_0 : rnd w0 = w0.
+Hypothesis rnd_idem : forall x : Qc, rnd (rnd x) = rnd x.
+Hypothesis val_pos : forall i, (w0 < am_value m i)%Qc.
+Hypothesis val_mono : forall i j, i <= j -> (am_value m i <= am_value m j)%Qc.
+
+(* the ranks handed to the two stores *)
+Definition nrank (s : asketch) (q : Qc) : W :=
+  rnd (wsub (rnd (wsub (total (a_neg s)) w1)) (a_rank rnd s q)).
+Definition prank (s : asketch) (q : Qc) : W :=
+  rnd (wsub (rnd (wsub (a_rank rnd s q) (a_zero s))) (total (a_neg s))).
+
+(* the repaired clamp *)
+Lemma a_rank_nonneg s q : (w0 <= a_rank rnd s q)%Qc.
+Proof using.
+  unfold a_rank. cbv zeta.
+  destruct (wltb_spec (rnd (wmul q (rnd (wsub (a_count s) w1)))) w0) as [H|H].
+  - apply Qcle_refl.
+  - apply Qcnot_lt_le. exact H.
+Qed.
+Lemma a_rank_fix s q : rnd (a_rank rnd s q) = a_rank rnd s q.
+Proof.
+  unfold a_rank. cbv zeta.
+  destruct (wltb (rnd (wmul q (rnd (wsub (a_count s) w1)))) w0); [exact rnd_0|apply rnd_idem].
+Qed.
+Lemma qmul_le_r (q1 q2 r : Qc) : (w0 <= r)%Qc -> (q1 <= q2)%Qc -> (wmul q1 r <= wmul q2 r)%Qc.
+Proof. intros Hr Hq. unfold wmul, w0 in *. apply Qcmult_le_compat_r; assumption. Qed.
+Lemma qmul_nonpos (q r : Qc) : (w0 <= q)%Qc -> (r <= w0)%Qc -> (wmul q r <= w0)%Qc.
+Proof.
+  intros Hq Hr. assert (Hr' : (w0 <= Qcopp r)%Qc) by qlra.
+  pose proof (wnonneg_mul q (Qcopp r) Hq Hr') as H.
+  assert (E : wmul q (Qcopp r) = Qcopp (wmul q r)) by (unfold W, wmul in *; ring).
+  rewrite E in H. qlra.
+Qed.
+(* the rank is monotone in q *)
+Lemma a_rank_mono s q1 q2 :
+  (w0 <= q1)%Qc -> (q1 <= q2)%Qc -> (a_rank rnd s q1 <= a_rank rnd s q2)%Qc.
+Proof.
+  intros H0 Hq. unfold a_rank. cbv zeta. set (r := rnd (wsub (a_count s) w1)).
+  destruct (Qclt_le_dec r w0) as [Hr|Hr].
+  - assert (Hr' : (r <= w0)%Qc) by (apply Qclt_le_weak; exact Hr).
+    assert (Hq2 : (w0 <= q2)%Qc) by (eapply Qcle_trans; eassumption).
+    pose proof (rnd_mono _ _ (qmul_nonpos q1 r H0 Hr')) as A1. rewrite rnd_0 in A1.
+    pose proof (rnd_mono _ _ (qmul_nonpos q2 r Hq2 Hr')) as A2. rewrite rnd_0 in A2.
+    destruct (wltb_spec (rnd (wmul q1 r)) w0) as [B1|B1];
+      destruct (wltb_spec (rnd (wmul q2 r)) w0) as [B2|B2];
+      try apply Qcnot_lt_le in B1; try apply Qcnot_lt_le in B2; wlra.
+  - pose proof (rnd_mono _ _ (qmul_le_r q1 q2 r Hr Hq)) as A.
+    destruct (wltb_spec (rnd (wmul q1 r)) w0) as [B1|B1];
+      destruct (wltb_spec (rnd (wmul q2 r)) w0) as [B2|B2];
+      try apply Qcnot_lt_le in B1; try apply Qcnot_lt_le in B2; wlra.
+Qed.
+
+(* the three branches of a_quantile *)
+Inductive qbranch (s : asketch) (q y : Qc) : Prop :=
+| QNeg k : (a_rank rnd s q < total (a_neg s))%Qc ->
+           key_at_rank (a_neg s) (nrank s q) = Some k -> y = Qcopp (am_value m k) -> qbranch s q y
+| QZero : (total (a_neg s) <= a_rank rnd s q)%Qc ->
+          (a_rank rnd s q < rnd (wadd (a_zero s) (total (a_neg s))))%Qc -> y = w0 -> qbranch s q y
+| QPos k : (total (a_neg s) <= a_rank rnd s q)%Qc ->
+           (rnd (wadd (a_zero s) (total (a_neg s))) <= a_rank rnd s q)%Qc ->
+           key_at_rank (a_pos s) (prank s q) = Some k -> y = am_value m k -> qbranch s q y.
+
+Lemma a_quantile_cases s q y :
+  a_quantile rnd m s q = Some y -> a_count s <> w0 /\ qbranch s q y.
+Proof.
+  unfold a_quantile. destruct (weqb_spec (a_count s) w0) as [E|E]; [discriminate|]. cbv zeta.
+  intros H. split; [exact E|].
+  destruct (wltb_spec (a_rank rnd s q) (total (a_neg s))) as [H1|H1].
+  - fold (nrank s q) in H. destruct (key_at_rank (a_neg s) (nrank s q)) as [k|] eqn:Ek; [|discriminate].
+    injection H as H. eapply QNeg; [exact H1|exact Ek|symmetry; exact H].
+  - apply Qcnot_lt_le in H1.
+    destruct (wltb_spec (a_rank rnd s q) (rnd (wadd (a_zero s) (total (a_neg s))))) as [H2|H2].
+    + injection H as H. apply QZero; [exact H1|exact H2|symmetry; exact H].
+    + apply Qcnot_lt_le in H2. fold (prank s q) in H.
+      destruct (key_at_rank (a_pos s) (prank s q)) as [k|] eqn:Ek; [|discriminate].
+      injection H as H. eapply QPos; [exact H1|exact H2|exact Ek|symmetry; exact H].
+Qed.
+
+(* a key returned by a store lies between its extreme keys *)
+Lemma kar_between b r k :
+  wf b = true -> key_at_rank b r = Some k ->
+  exists mn mx, min_key b = Some mn /\ max_key b = Some mx /\ mn <= k <= mx.
+Proof.
+  intros Hwf Hk. pose proof (key_at_rank_key b r k Hwf Hk) as Hg.
+  assert (Hne : b <> []). { intros E. subst b. discriminate. }
+  destruct (min_key_some b Hne) as [mn Hmn]. destruct (max_key_some b Hne) as [mx Hmx].
+  exists mn, mx. split; [exact Hmn|]. split; [exact Hmx|]. split.
+  - eapply min_key_le; eassumption.
+  - eapply max_key_ge; eassumption.
+Qed.
+
+(* ---- 5. never None on a non-empty sketch ---- *)
+(* Besides monotonicity and rnd 0 = 0 the statement needs that rounding does not merge the count
+   with its predecessor nor with 0: with [rnd] saturating (binary64 from 2^53 on) the rank of q = 1
+   reaches rnd (zero + neg) and the code consults an empty positive store (Example
+   C12_example_quantile_saturating in Props/Sketch.v; on the Go code: AddWithCount(-5, 2^54) then
+   GetValueAtQuantile(1) = 1.01 while min = max = -5.0028). *)
+Theorem a_quantile_some s q :
+  awf s -> a_count s <> w0 -> (w0 <= q)%Qc -> (q <= w1)%Qc ->
+  (w0 < rnd (a_count s))%Qc -> (rnd (wsub (a_count s) w1) < rnd (a_count s))%Qc ->
+  exists y, a_quantile rnd m s q = Some y.
+Proof.
+  intros Hs Hc Hq0 Hq1 Hc0 Hc1. pose proof Hs as (Hp & Hn & Pp & Pn & Hz).
+  unfold a_quantile. destruct (weqb_spec (a_count s) w0) as [E|_]; [contradiction|]. cbv zeta.
+  pose proof (a_rank_nonneg s q) as R0.
+  destruct (wltb_spec (a_rank rnd s q) (total (a_neg s))) as [H1|H1].
+  - destruct (key_at_rank (a_neg s) _) as [k|] eqn:Ek; [eexists; reflexivity|].
+    apply key_at_rank_none in Ek. rewrite Ek in H1. rewrite total_nil in H1. exfalso. wlra.
+  - destruct (wltb_spec (a_rank rnd s q) (rnd (wadd (a_zero s) (total (a_neg s))))) as [H2|H2];
+      [eexists; reflexivity|].
+    destruct (key_at_rank (a_pos s) _) as [k|] eqn:Ek; [eexists; reflexivity|].
+    exfalso. apply key_at_rank_none in Ek. apply H2.
+    assert (Ec : wadd (a_zero s) (total (a_neg s)) = a_count s).
+    { unfold a_count. rewrite Ek, total_nil. wlra. }
+    rewrite Ec.
+    (* rank <= max 0 (rnd (count - 1)) < rnd count *)
+    unfold a_rank. cbv zeta. set (r := rnd (wsub (a_count s) w1)) in *.
+    destruct (wltb_spec (rnd (wmul q r)) w0) as [B|B]; [exact Hc0|].
+    destruct (Qclt_le_dec r w0) as [Hr|Hr].
+    + assert (Hr' : (r <= w0)%Qc) by (apply Qclt_le_weak; exact Hr).
+      pose proof (rnd_mono _ _ (qmul_nonpos q r Hq0 Hr')) as A. rewrite rnd_0 in A.
+      eapply Qcle_lt_trans; [exact A|exact Hc0].
+    + pose proof (qmul_le_r q w1 r Hr Hq1) as A. rewrite wmul_1_l in A.
+      apply rnd_mono in A. unfold r in A at 2. rewrite rnd_idem in A. fold r in A.
+      eapply Qcle_lt_trans; [exact A|exact Hc1].
+Qed.
+
+(* ---- 4a. the answer lies between a_min and a_max ---- *)
+Theorem a_quantile_ge_min s q y lo :
+  awf s -> a_quantile rnd m s q = Some y -> a_min m s = Some lo -> (lo <= y)%Qc.
+Proof.
+  intros (Hp & Hn & Pp & Pn & Hz) Hy Hlo. apply a_quantile_cases in Hy. destruct Hy as [Hc Hb].
+  unfold a_min in Hlo. pose proof (a_rank_nonneg s q) as R0.
+  destruct Hb as [k H1 Hk Ey|H1 H2 Ey|k H1 H2 Hk Ey]; subst y.
+  - destruct (kar_between _ _ _ Hn Hk) as (mn & mx & Emn & Emx & Hle).
+    rewrite Emx in Hlo. injection Hlo as Hlo. subst lo.
+    pose proof (val_mono k mx (proj2 Hle)) as Hv. qlra.
+  - destruct (max_key (a_neg s)) as [mx|] eqn:Emx.
+    + injection Hlo as Hlo. subst lo. pose proof (val_pos mx) as Hv. qlra.
+    + destruct (wltb_spec w0 (a_zero s)) as [Hz'|Hz'].
+      * injection Hlo as Hlo. subst lo. wlra.
+      * exfalso. apply max_key_none in Emx. rewrite Emx, total_nil in H2.
+        assert (E0 : a_zero s = w0) by (apply Qcnot_lt_le in Hz'; wlra).
+        rewrite E0, wadd_0_l, rnd_0 in H2. wlra.
+  - destruct (kar_between _ _ _ Hp Hk) as (mn & mx & Emn & Emx & Hle).
+    pose proof (val_pos k) as Hvk.
+    destruct (max_key (a_neg s)) as [nx|] eqn:Enx.
+    + injection Hlo as Hlo. subst lo. pose proof (val_pos nx) as Hv. qlra.
+    + destruct (wltb_spec w0 (a_zero s)) as [Hz'|Hz'].
+      * injection Hlo as Hlo. subst lo. wlra.
+      * rewrite Emn in Hlo. injection Hlo as Hlo. subst lo. apply val_mono. exact (proj1 Hle).
+Qed.
+Theorem a_quantile_le_max s q y hi :
+  awf s -> a_quantile rnd m s q = Some y -> a_max m s = Some hi -> (y <= hi)%Qc.
+Proof.
+  intros (Hp & Hn & Pp & Pn & Hz) Hy Hhi. apply a_quantile_cases in Hy. destruct Hy as [Hc Hb].
+  unfold a_max in Hhi. pose proof (a_rank_nonneg s q) as R0.
+  destruct Hb as [k H1 Hk Ey|H1 H2 Ey|k H1 H2 Hk Ey]; subst y.
+  - destruct (kar_between _ _ _ Hn Hk) as (mn & mx & Emn & Emx & Hle).
+    pose proof (val_pos k) as Hvk.
+    destruct (max_key (a_pos s)) as [px|] eqn:Epx.
+    + injection Hhi as Hhi. subst hi. pose proof (val_pos px) as Hv. qlra.
+    + destruct (wltb_spec w0 (a_zero s)) as [Hz'|Hz'].
+      * injection Hhi as Hhi. subst hi. qlra.
+      * rewrite Emn in Hhi. injection Hhi as Hhi. subst hi.
+        pose proof (val_mono mn k (proj1 Hle)) as Hv. qlra.
+  - destruct (max_key (a_pos s)) as [px|] eqn:Epx.
+    + injection Hhi as Hhi. subst hi. pose proof (val_pos px) as Hv. wlra.
+    + destruct (wltb_spec w0 (a_zero s)) as [Hz'|Hz'].
+      * injection Hhi as Hhi. subst hi. wlra.
+      * exfalso. assert (E0 : a_zero s = w0) by (apply Qcnot_lt_le in Hz'; wlra).
+        rewrite E0, wadd_0_l in H2. apply rnd_mono in H1. rewrite a_rank_fix in H1.
+        exact (Qclt_not_le _ _ H2 H1).
+  - destruct (kar_between _ _ _ Hp Hk) as (mn & mx & Emn & Emx & Hle).
+    rewrite Emx in Hhi. injection Hhi as Hhi. subst hi. apply val_mono. exact (proj2 Hle).
+Qed.
+Theorem a_quantile_bounds s q y lo hi :
+  awf s -> a_quantile rnd m s q = Some y -> a_min m s = Some lo -> a_max m s = Some hi ->
+  (lo <= y <= hi)%Qc.
+Proof.
+  intros Hs Hy Hlo Hhi. split; [eapply a_quantile_ge_min|eapply a_quantile_le_max]; eassumption.
+Qed.
+
+(* ---- 4b. the answer is monotone in q ---- *)
+Theorem a_quantile_mono s q1 q2 y1 y2 :
+  awf s -> (w0 <= q1)%Qc -> (q1 <= q2)%Qc ->
+  a_quantile rnd m s q1 = Some y1 -> a_quantile rnd m s q2 = Some y2 -> (y1 <= y2)%Qc.
+Proof.
+  intros (Hp & Hn & Pp & Pn & Hz) H0 Hq Hy1 Hy2.
+  apply a_quantile_cases in Hy1. destruct Hy1 as [_ Hb1].
+  apply a_quantile_cases in Hy2. destruct Hy2 as [_ Hb2].
+  pose proof (a_rank_mono s q1 q2 H0 Hq) as Hr.
+  destruct Hb1 as [k1 A1 K1 E1|A1 A2 E1|k1 A1 A2 K1 E1];
+    destruct Hb2 as [k2 B1 K2 E2|B1 B2 E2|k2 B1 B2 K2 E2]; subst y1 y2.
+  - (* neg, neg: the mirrored rank decreases *)
+    assert (Hn12 : (nrank s q2 <= nrank s q1)%Qc).
+    { unfold nrank. apply rnd_mono. wlra. }
+    pose proof (key_at_rank_mono _ _ _ _ _ Hn Hn12 K2 K1) as Hk.
+    pose proof (val_mono k2 k1 Hk) as Hv. qlra.
+  - pose proof (val_pos k1) as Hv. qlra.
+  - pose proof (val_pos k1) as Hv1. pose proof (val_pos k2) as Hv2. qlra.
+  - exfalso. wlra.
+  - wlra.
+  - pose proof (val_pos k2) as Hv2. wlra.
+  - exfalso. wlra.
+  - exfalso. wlra.
+  - (* pos, pos *)
+    assert (Hp12 : (prank s q1 <= prank s q2)%Qc).
+    { unfold prank. apply rnd_mono.
+      assert (Hi : (rnd (wsub (a_rank rnd s q1) (a_zero s)) <= rnd (wsub (a_rank rnd s q2) (a_zero s)))%Qc)
+        by (apply rnd_mono; wlra).
+      wlra. }
+    pose proof (key_at_rank_mono _ _ _ _ _ Hp Hp12 K1 K2) as Hk.
+    apply val_mono. exact Hk.
+Qed.
+End QuantileProofs.
+
+(* ------------------------------------------------------------------ *)
+(** ** decidable forms and a concrete mapping, for the instances       *)
+(* ------------------------------------------------------------------ *)
+Definition asketch_eqb (s t : asketch) : bool :=
+  bins_eqb (a_pos s) (a_pos t) && bins_eqb (a_neg s) (a_neg t) && weqb (a_zero s) (a_zero t).
+Lemma asketch_eqb_eq s t : asketch_eqb s t = true <-> s = t.
+Proof.
+  unfold asketch_eqb. rewrite !andb_true_iff, !bins_eqb_eq, weqb_eq. split.
+  - intros [[H1 H2] H3]. apply asketch_ext; assumption.
+  - intros H. subst t. tauto.
+Qed.
+Definition oq_eqb (a b : option Qc) : bool :=
+  match a, b with Some x, Some y => weqb x y | None, None => true | _, _ => false end.
+Lemma oq_eqb_eq a b : oq_eqb a b = true <-> a = b.
+Proof.
+  destruct a as [x|], b as [y|]; cbn [oq_eqb]; try (split; intros H; congruence).
+  rewrite weqb_eq. split; intros H; congruence.
+Qed.
+Definition awfb (s : asketch) : bool :=
+  wf (a_pos s) && wf (a_neg s) && posb (a_pos s) && posb (a_neg s) && wleb w0 (a_zero s).
+Lemma awfb_awf s : awfb s = true -> awf s.
+Proof.
+  unfold awfb, awf. rewrite !andb_true_iff, wleb_le. intros [[[[H1 H2] H3] H4] H5].
+  split; [exact H1|]. split; [exact H2|]. split; [apply posb_pos; exact H3|].
+  split; [apply posb_pos; exact H4|exact H5].
+Qed.
+Definition wnonnegb (l : list (Qc * W)) : bool := forallb (fun vc => wleb w0 (snd vc)) l.
+Lemma wnonnegb_wnonneg l : wnonnegb l = true -> wnonneg l.
+Proof.
+  unfold wnonnegb, wnonneg. rewrite forallb_forall, Forall_forall.
+  intros H vc Hin. apply wleb_le. apply H. exact Hin.
+Qed.
+Definition acceptedb (m : amapping) (l : list (Qc * W)) : bool :=
+  forallb (fun vc => wleb (Qcopp (am_max m)) (fst vc) && wleb (fst vc) (am_max m)) l.
+Lemma acceptedb_accepted m l : acceptedb m l = true -> accepted m l.
+Proof.
+  unfold acceptedb, accepted. rewrite forallb_forall, Forall_forall.
+  intros H vc Hin. specialize (H vc Hin). apply andb_true_iff in H. destruct H as [H1 H2].
+  split; apply wleb_le; assumption.
+Qed.
+
+Lemma w_of_Z_le a b : a <= b -> (w_of_Z a <= w_of_Z b)%Qc.
+Proof.
+  intros H. unfold w_of_Z, Qcle. cbn [this Q2Qc]. rewrite !Qred_correct.
+  rewrite <- Zle_Qle. exact H.
+Qed.
+Lemma w_of_Z_pos a : 0 < a -> (w0 < w_of_Z a)%Qc.
+Proof.
+  intros H. unfold w_of_Z, Qclt. cbn [this Q2Qc]. rewrite Qred_correct.
+  change (this w0) with (inject_Z 0). rewrite <- Zlt_Qlt. exact H.
+Qed.
+
+(* a toy mapping with positive, non-decreasing bin values *)
+Definition ex_am : amapping :=
+  {| am_index := fun v => Qnum (this v) / Zpos (Qden (this v));
+     am_value := fun i => w_of_Z (Z.max 1 i);
+     am_min := Q2Qc (1 # 2); am_max := w_of_Z 1000 |}.
+Lemma ex_am_pos i : (w0 < am_value ex_am i)%Qc.
+Proof. cbn [am_value ex_am]. apply w_of_Z_pos. lia. Qed.
+Lemma ex_am_mono i j : i <= j -> (am_value ex_am i <= am_value ex_am j)%Qc.
+Proof. intros H. cbn [am_value ex_am]. apply w_of_Z_le. lia. Qed.
+Lemma ex_am_ok : am_ok ex_am.
+Proof. split; apply wleb_le; vm_compute; reflexivity. Qed.
+
+(* exact arithmetic satisfies every hypothesis on the rounding *)
+Lemma id_mono (x y : Qc) : (x <= y)%Qc -> ((fun z : Qc => z) x <= (fun z : Qc => z) y)%Qc.
+Proof. intros H. exact H. Qed.
+
+(* a saturating rounding (what binary64 does to counts beyond 2^53, scaled down to 2) *)
+Definition rnd_sat (x : Qc) : Qc := if wltb x (w_of_Z 2) then x else w_of_Z 2.
+Lemma rnd_sat_mono x y : (x <= y)%Qc -> (rnd_sat x <= rnd_sat y)%Qc.
+Proof.
+  intros H. unfold rnd_sat. generalize (w_of_Z 2). intros two.
+  destruct (wltb_spec x two) as [H1|H1]; destruct (wltb_spec y two) as [H2|H2];
+    try apply Qcnot_lt_le in H1; try apply Qcnot_lt_le in H2; wlra.
+Qed.
+Lemma rnd_sat_0 : rnd_sat w0 = w0.
+Proof.
+  unfold rnd_sat. assert (E : wltb w0 (w_of_Z 2) = true) by (vm_compute; reflexivity).
+  rewrite E. reflexivity.
+Qed.
+Lemma rnd_sat_idem x : rnd_sat (rnd_sat x) = rnd_sat x.
+Proof.
+  unfold rnd_sat. destruct (wltb x (w_of_Z 2)) eqn:E; [rewrite E; reflexivity|].
+  assert (E2 : wltb (w_of_Z 2) (w_of_Z 2) = false) by (vm_compute; reflexivity).
+  rewrite E2. reflexivity.
 Qed.
 
 (* ================================================================== *)
